@@ -14,6 +14,22 @@ use cxcheck::{arena, runner};
 static GLOBAL: arena::CheckingAlloc = arena::CheckingAlloc;
 
 fn main() {
+    // Reproducibility: run without address-space randomisation, so that cases
+    // served by the system allocator (large-scale cases) see the same addresses
+    // - hence the same table iteration orders - in every process
+    #[cfg(target_os = "linux")]
+    unsafe {
+        if std::env::var_os("CX_NOASLR").is_none() {
+            const ADDR_NO_RANDOMIZE: libc::c_ulong = 0x0040000;
+            let cur = libc::personality(0xffff_ffff);
+            if cur != -1 && libc::personality(cur as libc::c_ulong | ADDR_NO_RANDOMIZE) != -1 {
+                use std::os::unix::process::CommandExt;
+                let exe = std::env::current_exe().unwrap();
+                let err = std::process::Command::new(exe).args(std::env::args().skip(1)).env("CX_NOASLR", "1").exec();
+                eprintln!("cxcheck: re-exec failed: {}", err);
+            }
+        }
+    }
     let args: Vec<String> = std::env::args().collect();
     if args.len() < 2 {
         eprintln!("usage: cxcheck run|worker|replay ...");
